@@ -4,6 +4,7 @@ import Bclv.Props.C15
 import Bclv.Proofs.Scoped
 import Bclv.Proofs.ParserScoped9
 import Bclv.Proofs.ParserFuel5
+import Bclv.Proofs.LexLayout3
 /-!
 # C06 — every input ends in a result or an error, never a crash or a hang (partial)
 
@@ -42,6 +43,10 @@ that those outcomes are not reached, and that the machine stops:
   (`advanceLoop`, `syncLoop`, `infixLoop`, `blockLoop`, `topLoop` and the mutual recursion of
   expressions and statements) consumes a token per iteration or ends, so fuel `4·tokens + 16`
   suffices and `stuck` stays `false` (`parse_not_stuck`).
+* `lexWhole_budget_free` (`Proofs/LexFuel.lean`, `LexLayout3.lean`): more than not being
+  exhausted, the lexer's budgets are irrelevant — every inner budget above the input length
+  and every outer budget of at least `3·len + 4` give the same tokens (each loop iteration
+  that continues consumes a byte; a run that has ended is not changed by more budget).
 * `accepted_source_runs`: `every_accepted_program_runs` with that hypothesis discharged —
   **for every source text** the parser model accepts, the VM on the compiled program ends
   with a result or a runtime error.
